@@ -27,6 +27,7 @@ type Ctx struct {
 	// rename tolerance (locals.go)
 	Hints      map[string]*FnVars
 	KnownFns   map[string]bool // in-repo function keys when the locks were written (inline.go)
+	loopVariants map[string]string
 	aliasCache map[string]map[string]string
 	aliasMu    sync.Mutex
 }
@@ -166,6 +167,7 @@ func (c *Ctx) genWith(fn *ssa.Function, prop string, forbid []Forbid, orderHeaps
 	}
 	g.aliasOf = g.aliasFn(fn)
 	g.knownFns = c.KnownFns
+	g.loopVariants = c.loopVariants
 	if err := g.Generate(); err != nil {
 		return nil, err
 	}
